@@ -72,6 +72,18 @@ func Catalogue(prop, tier string) []Cfg {
 		add(c)
 		// simple v1
 		add(pc("s1", []uint{2, 1}, 2, "fair", []int{2}, []int{1, 1}, "", ""))
+		// single-slot inputs fed by producers that are slower than the discipline
+		add(pc("v1", []uint{2, 1}, 2, "fair", []int{1}, []int{2}, "rr", ""))
+		add(pc("v2", []uint{2, 1}, 2, "fair", []int{1}, []int{2}, "rr", ""))
+		// one handler, Handle takes a while
+		{
+			c := pc("s2", []uint{1}, 1, "fair", []int{2}, []int{2}, "", "")
+			c.Yields = 1
+			add(c)
+			c = pc("s1", []uint{1}, 1, "fair", []int{2}, []int{2}, "", "")
+			c.Yields = 1
+			add(c)
+		}
 		// v1 accepts fewer handlers than inputs
 		add(pc("s1", []uint{2, 1}, 1, "fair", []int{2}, []int{2, 1}, "", ""))
 		add(pc("v1", []uint{2, 1}, 1, "fair", []int{2}, []int{1, 1}, "rr", ""))
